@@ -240,6 +240,12 @@ def run(ctx, cases, ref=False):
         dist["n:{}".format(c["n"])] += 1
         dist["how:" + c.get("how", "str")] += 1
         cls = "{}:{}".format(c["style"], c["mode"])
+        if s.startswith("UNPARSED"):
+            failures.append({"signature": "c09:wrapper-format:" + c.get("how", "str"),
+                             "kind": "disagreement", "what": "repr()/str(array) no longer wrap the "
+                             "printed pair the way the harness strips it", "input": inp, "impl": s,
+                             "expected": m["text"]})
+            continue
         if s.startswith("EXC"):
             failures.append({"signature": "c09:exception:{}:{}:{}".format(
                 c["style"], "v=0" if c["v"] == 0 else "v!=0", s.split(":")[0][4:]),
